@@ -21,8 +21,8 @@ def main():
     t0 = time.time()
     if a.tier == "thorough":
         os.environ.setdefault("VERIF_XCHECK", "1")
-    # wall budget of the exploration: ~10x the slowest check of the tier on the unchanged tree (quick <= 70 s, thorough <= 15 min)
-    os.environ.setdefault("VERIF_WALL_BUDGET", "900" if a.tier == "quick" else "10800")
+    # wall budget of the exploration: ~10x the slowest check of the tier on the unchanged tree (quick <= 95 s, thorough <= 15 min)
+    os.environ.setdefault("VERIF_WALL_BUDGET", "600" if a.tier == "quick" else "10800")
     from symnp import proxy, drive, report
     mod = importlib.import_module(f"harness.{a.prop.lower()}")
     proxy.install()
